@@ -13,7 +13,7 @@ THEOREMS = [
     "Portus.C14.check_model_override", "Portus.C14.literal_below_2_31_accepted", "Portus.C14.literal_unencodable_refused",
 ]
 RELATION = "compile_and_serialize of three fixed templates with the numeral in operand / definition / override position (image bytes | ERR | PANIC)"
-RULE = ("numerals: exhaustively 0..2^12 (thorough: 0..2^16), all 2^k-1, 2^k, 2^k+1 for k <= 70, leading zeros, 20- to 30-digit "
+RULE = ("numerals: exhaustively 0..2^12 (thorough: 0..2^16), all 2^k-1, 2^k, 2^k+1 for k <= 70 and around 2^96, 2^128, 2^256, 2^512, 38- to 300-digit numerals, leading zeros, 20- to 30-digit "
         "numerals, random 31/32/63/64/65-bit values; each in operand and definition position, and as a compile-time override "
         "(u32 range); plus literals inside generated programs. non-trivial = numeral >= 2 digits; distinct by (position, numeral)")
 EXPLANATION = ("theorems: a maximal digit string parses to exactly its decimal value if < 2^64 and is otherwise rejected; an immediate "
@@ -36,7 +36,7 @@ T_OVERRIDE = "(def (Report (x 0)) (c 0)) (when true (report))"
 def numerals(ctx):
     rng = ctx.rng
     out = [str(n) for n in range(0, 2**16 if ctx.thorough else 2**12)]
-    for k in range(0, 71):
+    for k in list(range(0, 71)) + [96, 127, 128, 129, 130, 192, 255, 256, 257, 300, 512]:   # also around every wider machine integer
         for d in (-1, 0, 1):
             if 2**k + d >= 0:
                 out.append(str(2**k + d))
@@ -47,6 +47,10 @@ def numerals(ctx):
         out.append(str(rng.getrandbits(rng.choice([8, 16, 30, 31, 32, 33, 62, 63, 64, 65, 70, 90]))))
     for _ in range(2000 if ctx.thorough else 100):
         out.append("".join(rng.choice("0123456789") for _ in range(rng.randrange(20, 31))))
+    for nd in (38, 39, 40, 41, 50, 78, 100, 300):
+        out.append("3" + "".join(rng.choice("0123456789") for _ in range(nd - 1)))
+        out.append("9" * nd)
+        out.append("1" + "0" * (nd - 1))
     return out
 
 
@@ -59,6 +63,21 @@ def gen(ctx):
         yield Case("CMP", "%s - -" % G.hx(T_DEFINITION % d), tags=("definition", d))
         if int(d) < 2**32 and d == str(int(d)):
             yield Case("CMP", "%s %s=%s -" % (G.hx(T_OVERRIDE), G.hx("c"), d), tags=("override", d))
+    # a name that occurs twice in the register file (declared twice, Report-block field also declared flat, declared like a
+    # built-in): the override, the DEF instruction and the program's reads must all mean the same register
+    DUPS = ["(def (Report (x 0)) (gain 1) (gain 2)) (when true (:= Report.x gain) (report))",
+            "(def (Report (x 0) (y 3)) (Report.y 4)) (when true (:= Report.x Report.y) (report))",
+            "(def (Report (x 0)) (Rate 5)) (when true (:= Report.x Rate) (report))",
+            "(def (Report (x 0)) (Cwnd 5) (c 1)) (when true (:= Report.x (+ Cwnd c)) (report))",
+            "(def (Report (x 0)) (a 1) (b 2) (a 3) (c 4)) (when true (:= Report.x (+ a c)) (report))",
+            "(def (Report (x 0) (x 1))) (when true (:= Report.x (+ Report.x 1)) (report))",
+            "(def (Report (x 0)) (volatile g 1) (g 2)) (when true (:= Report.x g) (report))",
+            "(def (Report (x 0)) (Micros 9)) (when (> Micros 5) (:= Report.x Micros) (report))"]
+    for src in DUPS:
+        yield Case("CMP", "%s - %s" % (G.hx(src), ";".join(G.hx(n) for n in ("gain", "Report.y", "Rate", "Cwnd", "a", "c", "g", "Report.x", "Micros"))), tags=("duplicate-names", "-"))
+        for nm in ("gain", "Report.y", "Rate", "Cwnd", "a", "c", "g", "Report.x", "Micros"):
+            for v in (9, 2**31 - 1):
+                yield Case("CMP", "%s %s=%d %s" % (G.hx(src), G.hx(nm), v, G.hx(nm)), tags=("duplicate-names", "-"))
     # +infinity and literals inside generated programs (correspondence only)
     yield Case("CMP", "%s - -" % G.hx(T_OPERAND % "+infinity"), tags=("infinity", "-"))
     yield Case("CMP", "%s - -" % G.hx(T_DEFINITION % "+infinity"), tags=("infinity", "-"))
